@@ -244,6 +244,9 @@ class FullFrontend(ConstrainedFrontend):
         if len(two) == 0:
             raise UnsatError("unsat during max()")
         if len(two) == 1:
+            # a signed query answers with the signed reading of the value, like the backend does
+            if signed and isinstance(e, claripy.ast.BV) and two[0] >= 2 ** (len(e) - 1):
+                return two[0] - 2 ** len(e)
             return two[0]
 
         if signed:
@@ -287,6 +290,9 @@ class FullFrontend(ConstrainedFrontend):
         if len(two) == 0:
             raise UnsatError("unsat during min()")
         if len(two) == 1:
+            # a signed query answers with the signed reading of the value, like the backend does
+            if signed and isinstance(e, claripy.ast.BV) and two[0] >= 2 ** (len(e) - 1):
+                return two[0] - 2 ** len(e)
             return two[0]
 
         if signed:
